@@ -433,6 +433,7 @@ Definition inuse (w1 : nat) (e : ent) : bool :=
 Section ObjIds.
   Variables (ranges0 : list (Z * Z)) (w1 w2 w3 : nat) (es : list ent).
   Hypothesis Hfit : Forall (ent_fits w1 w2 w3) es.
+  Hypothesis Hpos : (0 < w1 + w2 + w3)%nat.
   Let x := mkXS ranges0 (Z.of_nat w1) (Z.of_nat w2) (Z.of_nat w3) (flat_map (enc_ent w1 w2 w3) es).
 
   Lemma objids_range : forall n start i index, (index + i + n <= length es)%nat ->
@@ -444,6 +445,12 @@ Section ObjIds.
     cbn [xs_objids_range seq map].
     destruct (nth_error es (index + i)) as [[[t a] b]|] eqn:En; [|apply nth_error_None in En; lia].
     replace (Z.of_nat index + Z.of_nat i) with (Z.of_nat (index + i)) by lia.
+    assert (Hdl : length (xdata x) = ((w1 + w2 + w3) * length es)%nat).
+    { unfold x. cbn [xdata]. clear. induction es as [|e r IHr]; [cbn; lia|].
+      cbn [flat_map]. rewrite app_length, enc_ent_length, IHr. cbn [length]. lia. }
+    assert (Hguard : (Z.of_nat (length (xdata x)) <=? entlen x * Z.of_nat (index + i)) = false).
+    { rewrite Hdl. unfold entlen, x. cbn [fl1 fl2 fl3]. apply Z.leb_gt. nia. }
+    rewrite Hguard.
     unfold x. rewrite (xs_entry_decode ranges0 w1 w2 w3 es (index + i) t a b Hfit En).
     assert (Hsk : skipn (index + i) es = (t, a, b) :: skipn (S (index + i)) es).
     { clear - En. revert En. generalize (index + i)%nat. induction es as [|e r IHr]; intros k En; [destruct k; discriminate|].
@@ -466,12 +473,12 @@ Qed.
 (* C02: the in-use object numbers are exactly the listed ids whose entry is of type 1 or 2,
    across all /Index ranges *)
 Theorem xs_get_objids_spec : forall ranges (w1 w2 w3 : nat) es,
-  Forall (fun sc => 0 <= snd sc) ranges -> Forall (ent_fits w1 w2 w3) es ->
+  Forall (fun sc => 0 <= snd sc) ranges -> Forall (ent_fits w1 w2 w3) es -> (0 < w1 + w2 + w3)%nat ->
   length es = length (flat_map range_ids ranges) ->
   xs_get_objids (mkXS ranges (Z.of_nat w1) (Z.of_nat w2) (Z.of_nat w3) (flat_map (enc_ent w1 w2 w3) es)) =
   map fst (filter (fun p => inuse w1 (snd p)) (combine (flat_map range_ids ranges) es)).
 Proof.
-  intros ranges w1 w2 w3 es Hnn Hfit Hlen. unfold xs_get_objids. cbn [xranges].
+  intros ranges w1 w2 w3 es Hnn Hfit Hpos Hlen. unfold xs_get_objids. cbn [xranges].
   set (x := mkXS ranges (Z.of_nat w1) (Z.of_nat w2) (Z.of_nat w3) (flat_map (enc_ent w1 w2 w3) es)).
   assert (Hgen : forall rs index, Forall (fun sc => 0 <= snd sc) rs ->
             (index + length (flat_map range_ids rs) <= length es)%nat ->
@@ -483,7 +490,7 @@ Proof.
     assert (Hrl : length (range_ids (start, cnt)) = Z.to_nat cnt) by (unfold range_ids; rewrite map_length, seq_length; reflexivity).
     cbn [flat_map] in Hl. rewrite app_length, Hrl in Hl.
     cbn [xs_objids_go flat_map]. rewrite app_length.
-    pose proof (objids_range ranges w1 w2 w3 es Hfit (Z.to_nat cnt) start 0 index ltac:(lia)) as H1.
+    pose proof (objids_range ranges w1 w2 w3 es Hfit Hpos (Z.to_nat cnt) start 0 index ltac:(lia)) as H1.
     cbn [Z.of_nat] in H1. fold x in H1. rewrite H1.
     replace (Z.of_nat index + cnt) with (Z.of_nat (index + Z.to_nat cnt)) by lia.
     rewrite IH by (auto; lia).
